@@ -388,7 +388,15 @@ def _tile_run(model, ranks):
     t2 = Obj(pt, {'start': Sym('t2.start', ranks['t2.start']), 'end': Sym('t2.end', ranks['t2.end']), '_n': 't2'})
     it = Interp(model)
     it.reset_run(Oracle())
-    it.func_hooks[mk.qualname] = lambda interp, fi, args, kwargs: Made(('token', args[0].attrs['_n']))
+    from ..interp import _MISSING
+
+    def make_hook(interp, fi, args, kwargs):
+        # the two candidates under test are made into markers; the enclosing token's make() runs as written
+        o = args[0] if args else None
+        if isinstance(o, Obj) and '_n' in o.attrs:
+            return Made(('token', o.attrs['_n']))
+        return _MISSING
+    it.func_hooks[mk.qualname] = make_hook
     it.intrinsics['html.unescape'] = lambda interp, args, kwargs: AbsStr(prov=('unescape', args[0].prov)) \
         if isinstance(args[0], AbsStr) else Unknown('unescape')
     # a function of the package applied to the text alone is taken as "the resolver of character references"
@@ -400,7 +408,31 @@ def _tile_run(model, ranks):
             return AbsStr(prov=('unescape', args[0].prov))
         return orig(f, args, kwargs, node)
     it.call_function = spy
-    res = it.call(mt, [[t1, t2], Sym('start', ranks['start']), Sym('end', ranks['end']), string, Fallback()], {})
+    # driven through the enclosing token: whatever make() hands make_tokens (positionally, by keyword, as a span
+    # tuple), the children it ends up with are the tiling of [parse_start, parse_end)
+    holder = {}
+
+    class Built(AbstractValue):
+        def abs_setattr(self, interp, name, value):
+            holder[name] = value
+
+        def abs_is(self, interp, other):
+            return False if other is None else self is other
+
+    class Inner(AbstractValue):
+        def abs_getattr(self, interp, name):
+            return True if name == 'parse_inner' else Unknown(name)
+
+        def abs_call(self, interp, args, kwargs):
+            return Built()
+    parent = Obj(pt, {'start': Sym('start', ranks['start']), 'end': Sym('end', ranks['end']),
+                      'parse_start': Sym('start', ranks['start']), 'parse_end': Sym('end', ranks['end']),
+                      'children': [t1, t2], 'string': string, 'fallback_token': Fallback(), 'cls': Inner(),
+                      'match': Unknown('match')})
+    it.call(mk, [parent], {})
+    res = holder.get('children')
+    if not isinstance(res, (list, tuple)):
+        raise InterpError('ParseToken.make does not give the token it builds a list of children: %r' % (res,))
     out = []
     for m in res:
         out.append(m.what if isinstance(m, Made) else ('?', repr(m)))
@@ -528,10 +560,22 @@ def rule_tile(ctx, rep, only_verbatim=False):
     o = Obj(pt, dict(marks))
     o.attrs['cls'] = ClsCtor()
     result_children = object()
-    it.func_hooks[mt.qualname] = lambda interp, fi, args, kwargs: seen.__setitem__('mt_args', list(args)) or result_children
+    it.func_hooks[mt.qualname] = lambda interp, fi, args, kwargs: (seen.__setitem__('mt_args', list(args)), seen.__setitem__('mt_kwargs', dict(kwargs))) and result_children
     it.call(mk, [o], {})
-    ok = (seen.get('mt_args') is not None and len(seen['mt_args']) == 5
-          and all(a is marks[k] for a, k in zip(seen['mt_args'], ('children', 'parse_start', 'parse_end', 'string', 'fallback_token')))
+    def flat(v, out):
+        if isinstance(v, (tuple, list)):
+            for x in v:
+                flat(x, out)
+        elif isinstance(v, dict):
+            for x in v.values():
+                flat(x, out)
+        else:
+            out.append(v)
+        return out
+    passed = flat(seen.get('mt_args') or [], []) + flat(seen.get('mt_kwargs') or {}, [])
+    # whatever the calling convention: make_tokens is handed exactly this token's children, parse span, string and fallback
+    ok = (seen.get('mt_args') is not None and len(passed) == 5
+          and all(any(a is marks[k] for a in passed) for k in ('children', 'parse_start', 'parse_end', 'string', 'fallback_token'))
           and seen.get('set', {}).get('children') is result_children
           and seen.get('ctor_args') == [marks['match']])
     rep.obligation(rule, ok, {'ParseToken.make': 'children = make_tokens(self.children, parse_start, parse_end, string, fallback); cls(match)'})
